@@ -38,8 +38,38 @@ STR_CTX = ['x=%s', 'x=a if %s else b', 'x=%s if a else b', 'x=a if b else %s', '
            'x=await_ if%selse b']
 
 
-def literal_modules():
+def number_sweep():
+    """float literals across the exponent range with 1, 15, 16 and 17 significant digits (shortest repr), their neighbours, the integers around
+    the powers of ten and two where float and int spellings meet, and complex counterparts - each in a plain and an operator context"""
+    vals = []
+    mants = ['1', '1.5', '9.9', '1.2345678901234567', '9.999999999999999', '1.0000000000000002', '2.2250738585072014', '4.9406564584124654', '1.7976931348623157',
+             '5.0000000000000001', '8.8817841970012523', '1.2345678901234568', '7.0000000000000009']
+    for e in list(range(-30, 31)) + [-324, -323, -308, -307, -100, 100, 300, 307, 308]:
+        for m in mants:
+            try:
+                f = float('%se%d' % (m, e))
+            except (ValueError, OverflowError):
+                continue
+            if f != f or f in (float('inf'), float('-inf')):
+                continue
+            vals.append(repr(f))
+    for e in range(0, 25):
+        for d in (-1, 0, 1):
+            vals.append(str(10 ** e + d))
+            vals.append(repr(float(10 ** e + d)))
+    for e in (15, 16, 31, 32, 52, 53, 54, 63, 64, 100):
+        for d in (-1, 0, 1):
+            vals.append(str(2 ** e + d))
+            vals.append(repr(float(2 ** e + d)))
+    vals = sorted(set(v for v in vals if not v.startswith('-')))
     out = []
+    for v in vals:
+        out.append(('numsweep:%s' % v, 'x=%s\ny=[%s,-%s,%sj]\nz=a if %s else b\nw=%s .real\n' % (v, v, v, v, v, v)))
+    return out
+
+
+def literal_modules():
+    out = number_sweep()
     for ci, c in enumerate(NUM_CTX):
         for v in NUMS:
             out.append(('num:%d:%s' % (ci, v), c.replace('%%', '\0').replace('%s', v).replace('\0', '%') + '\n'))
